@@ -121,6 +121,26 @@ func TestGeneratorsAgainstGraders(t *testing.T) {
 	for i := 0; i < 30; i++ {
 		stakers = append(stakers, NewStakerKey(SeedN("staker", i)))
 	}
+	// determinism: same seed, same chain
+	mk := func() [32]byte {
+		r := rand.New(rand.NewSource(99))
+		k := NewRCDeKey(SeedN("det", 0))
+		content, _ := BatchJSON(Conversion(k.FAAddress(), fat2.PTickerFCT, 1, fat2.PTickerUSD))
+		fc, err := Materialize([]AbsBlock{{
+			Height:  7,
+			OPR:     GenOPRSet(r, 5, 7, nil, 3, nil, nil),
+			SPR:     GenSPRSet(r, 6, 7, 3, nil, stakers),
+			Tx:      []RawEntry{SignedBatchEntry(content, []SignerKey{k}, 1)},
+			Factoid: []FTx{{FCTInputs: []FTxIO{{Amount: 1}}}},
+		}})
+		if err != nil {
+			t.Fatal(err)
+		}
+		return fc.DBlockKeyMR(7)
+	}
+	if mk() != mk() {
+		t.Fatal("generation is not deterministic")
+	}
 	for v := uint8(5); v <= 7; v++ {
 		set := GenSPRSet(rng, v, 99, 30, nil, stakers)
 		winners, err := GradeSPRSet(v, 99, set)
@@ -576,11 +596,15 @@ func TestSyncThroughAllActivations(t *testing.T) {
 	for _, h := range []uint32{142, 155, 165, last} {
 		// 25 OPR winners (360 PEG) + 25 SPR winners (180 PEG) have history rows
 		expect(fmt.Sprintf("opr payouts %d", h), 25, "pn_winners ", fmt.Sprintf("height=%d ", h), "payout=36000000000")
-		sprHash := hx(fc.EntryHashes(h, config.SPRChain)[0])
-		_ = sprHash
-		expect(fmt.Sprintf("spr payouts %d", h), 25, "pn_history_transaction ", "to_asset=PEG", "to_amount=18000000000",
-			"outputs=", "from_amount=0")
+		paid := 0
+		for _, eh := range fc.EntryHashes(h, config.SPRChain) {
+			paid += len(grep(dump, "pn_history_transaction ", "entry_hash="+hx(eh), "to_asset=PEG", "to_amount=18000000000"))
+		}
+		if paid != 25 {
+			t.Errorf("height %d: %d SPR payouts, want 25", h, paid)
+		}
 	}
+	expect("spr payouts overall", (last-142+1)*25, "pn_history_transaction ", "to_asset=PEG", "to_amount=18000000000")
 	expect("snapshot at 144", -1, "snapshot_current addr ")
 	expect("staking payout tx at 144", -1, "pn_history_txbatch ", fmt.Sprintf("entry_hash=%064d", 144))
 	// the two NullifyBurnAddress heights fetch the dblock twice
@@ -600,5 +624,48 @@ func TestSyncThroughAllActivations(t *testing.T) {
 		for _, l := range grep(dump, "pn_addresses bal", "peg_balance") {
 			fmt.Println(l)
 		}
+	}
+}
+
+// TestPanicIsReported: an SPR entry with a single ExtID makes node.GradeS index
+// out of range (extids[1]); SyncTo and StepBlock must return that as an error.
+func TestPanicIsReported(t *testing.T) {
+	defer MainnetSchedule().Apply()
+	s := compressedSchedule()
+	s.V20HeightActivation = 101
+	s.Hardforks[2].ActivationHeight = 101
+	s.Apply()
+	QuietLogs()
+	fc, err := Materialize([]AbsBlock{{Height: 101, SPR: []RawEntry{{ExtIDs: [][]byte{{5}}, Content: []byte("x")}}}})
+	if err != nil {
+		t.Fatal(err)
+	}
+	srv := fc.Serve()
+	defer srv.Close()
+	dir, err := os.MkdirTemp("", "verifharness")
+	if err != nil {
+		t.Fatal(err)
+	}
+	defer os.RemoveAll(dir)
+
+	n, err := NewNode(filepath.Join(dir, "sync.db"), ServerURL(srv))
+	if err != nil {
+		t.Fatal(err)
+	}
+	err = SyncTo(n, fc, 101, 30*time.Second)
+	if err == nil || !strings.Contains(err.Error(), "panic in DBlockSync at height 101") || !strings.Contains(err.Error(), "index out of range") {
+		t.Fatalf("SyncTo: %v", err)
+	}
+
+	n2, err := NewNode(filepath.Join(dir, "step.db"), ServerURL(srv))
+	if err != nil {
+		t.Fatal(err)
+	}
+	err = StepBlock(n2, 101)
+	if err == nil || !strings.Contains(err.Error(), "panic in StepBlock at height 101") || !strings.Contains(err.Error(), "index out of range") {
+		t.Fatalf("StepBlock: %v", err)
+	}
+	if n2.Sync.Synced != 100 {
+		t.Fatalf("Synced = %d after a panicking block", n2.Sync.Synced)
 	}
 }
